@@ -33,6 +33,7 @@ type symDef struct {
 	expr   ast.Expr
 	clause *ast.CaseClause
 	sw     *ast.TypeSwitchStmt
+	ifs    *ast.IfStmt // innermost enclosing `if v, ok := x.(*T); cond {` whose body contains the definition
 	pos    token.Pos
 }
 
@@ -45,6 +46,7 @@ type symEval struct {
 	old   types.Object
 	defs  map[types.Object][]symDef
 	impl  map[types.Object]*implBinding
+	over  map[types.Object]string // temporary term overrides (refinement idiom, inlined parameters)
 	depth int
 }
 
@@ -54,7 +56,7 @@ type implBinding struct {
 }
 
 func newSymEval(c *Ctx, p *packages.Package, fd *ast.FuncDecl, side string) *symEval {
-	se := &symEval{c: c, info: p.TypesInfo, fd: fd, side: side, defs: map[types.Object][]symDef{}, impl: map[types.Object]*implBinding{}}
+	se := &symEval{c: c, info: p.TypesInfo, fd: fd, side: side, defs: map[types.Object][]symDef{}, impl: map[types.Object]*implBinding{}, over: map[types.Object]string{}}
 	info := p.TypesInfo
 	if fd.Recv != nil && len(fd.Recv.List) == 1 && len(fd.Recv.List[0].Names) == 1 {
 		se.recv = info.Defs[fd.Recv.List[0].Names[0]]
@@ -67,12 +69,31 @@ func newSymEval(c *Ctx, p *packages.Package, fd *ast.FuncDecl, side string) *sym
 		}
 	}
 	// definitions with their enclosing type-switch clause
+	var curIf *ast.IfStmt
 	var walk func(n ast.Node, cl *ast.CaseClause, sw *ast.TypeSwitchStmt)
 	walk = func(n ast.Node, cl *ast.CaseClause, sw *ast.TypeSwitchStmt) {
 		ast.Inspect(n, func(m ast.Node) bool {
 			switch m := m.(type) {
 			case *ast.FuncLit:
 				return false
+			case *ast.IfStmt:
+				if m == n {
+					return true
+				}
+				if as, ok := m.Init.(*ast.AssignStmt); ok && len(as.Rhs) == 1 {
+					if _, isTA := as.Rhs[0].(*ast.TypeAssertExpr); isTA {
+						walk(m.Init, cl, sw)
+						saved := curIf
+						curIf = m
+						walk(m.Body, cl, sw)
+						curIf = saved
+						if m.Else != nil {
+							walk(m.Else, cl, sw)
+						}
+						return false
+					}
+				}
+				return true
 			case *ast.TypeSwitchStmt:
 				if m == n {
 					return true
@@ -117,13 +138,13 @@ func newSymEval(c *Ctx, p *packages.Package, fd *ast.FuncDecl, side string) *sym
 					switch l := unparen(l).(type) {
 					case *ast.Ident:
 						if obj := info.ObjectOf(l); obj != nil && l.Name != "_" {
-							se.defs[obj] = append(se.defs[obj], symDef{rhs, cl, sw, m.Pos()})
+							se.defs[obj] = append(se.defs[obj], symDef{rhs, cl, sw, curIf, m.Pos()})
 						}
 					case *ast.SelectorExpr:
 						// recv.Typ = e  (library side): recorded under the field object
 						if id, ok := unparen(l.X).(*ast.Ident); ok && se.recv != nil && info.ObjectOf(id) == se.recv {
 							if f := info.ObjectOf(l.Sel); f != nil {
-								se.defs[f] = append(se.defs[f], symDef{rhs, cl, sw, m.Pos()})
+								se.defs[f] = append(se.defs[f], symDef{rhs, cl, sw, curIf, m.Pos()})
 							}
 						}
 					}
@@ -142,8 +163,14 @@ func (se *symEval) termOfDefs(ds []symDef, name string) string {
 	for _, d := range ds {
 		live = append(live, d)
 	}
-	if len(live) == 1 && live[0].clause == nil {
+	if len(live) == 1 && live[0].clause == nil && live[0].ifs == nil {
 		return se.term(live[0].expr)
+	}
+	// refinement idiom: x := e0; if v, ok := x.(*T); cond { x = e1 }
+	if len(live) == 2 && live[0].ifs == nil && live[0].clause == nil && live[1].ifs != nil && live[1].clause == nil {
+		if t, ok := se.refine(live[0], live[1]); ok {
+			return t
+		}
 	}
 	if len(live) == 0 {
 		return "?undefined:" + name
@@ -174,6 +201,134 @@ func (se *symEval) termOfDefs(ds []symDef, name string) string {
 	return "Case(" + se.term(operand) + "){" + strings.Join(arms, "; ") + "}"
 }
 
+// refine renders `x := e0; if v, ok := x.(*T); cond { x = e1 }` as IfIs(e0; T[; extra]){e1}{e0}.
+func (se *symEval) refine(d0, d1 symDef) (string, bool) {
+	as, ok := d1.ifs.Init.(*ast.AssignStmt)
+	if !ok || len(as.Rhs) != 1 {
+		return "", false
+	}
+	ta, ok := as.Rhs[0].(*ast.TypeAssertExpr)
+	if !ok || ta.Type == nil {
+		return "", false
+	}
+	subjID, ok := unparen(ta.X).(*ast.Ident)
+	if !ok {
+		return "", false
+	}
+	subj := se.info.ObjectOf(subjID)
+	base := se.term(d0.expr)
+	tname := shortTypeName(typeKey(se.info.TypeOf(ta.Type)))
+	extra := ""
+	okName := ""
+	if len(as.Lhs) == 2 {
+		okName = exprString(as.Lhs[1])
+	}
+	if c := strings.ReplaceAll(exprString(d1.ifs.Cond), " ", ""); c != okName {
+		extra = "; " + c
+	}
+	saved := se.over[subj]
+	se.over[subj] = base
+	var vobj types.Object
+	if id, ok := as.Lhs[0].(*ast.Ident); ok && id.Name != "_" {
+		vobj = se.info.ObjectOf(id)
+		se.over[vobj] = "Assert[" + tname + "](" + base + ")"
+	}
+	then := se.term(d1.expr)
+	if vobj != nil {
+		delete(se.over, vobj)
+	}
+	if saved == "" {
+		delete(se.over, subj)
+	} else {
+		se.over[subj] = saved
+	}
+	return "IfIs(" + base + "; " + tname + extra + "){" + then + "}{" + base + "}", true
+}
+
+// inlineHelper renders a small helper `if v, ok := p.(*T); cond { return e1 }; return e2` with its arguments substituted.
+func (se *symEval) inlineHelper(callee *types.Func, args []string) (string, bool) {
+	fd := se.c.funcDecl(callee)
+	if fd == nil || fd.Body == nil || len(fd.Body.List) == 0 || len(fd.Body.List) > 3 {
+		return "", false
+	}
+	p := se.c.declPkg[fd]
+	sub := newSymEval(se.c, p, fd, se.side)
+	sub.depth = se.depth
+	i := 0
+	for _, f := range fd.Type.Params.List {
+		for _, n := range f.Names {
+			if i < len(args) {
+				if obj := p.TypesInfo.Defs[n]; obj != nil {
+					sub.over[obj] = args[i]
+				}
+			}
+			i++
+		}
+	}
+	sub.old = nil
+	list := fd.Body.List
+	last, ok := list[len(list)-1].(*ast.ReturnStmt)
+	if !ok || len(last.Results) < 1 {
+		return "", false
+	}
+	elseT := sub.term(last.Results[0])
+	if len(list) == 1 {
+		return elseT, true
+	}
+	if len(list) != 2 {
+		return "", false
+	}
+	is, ok := list[0].(*ast.IfStmt)
+	if !ok || is.Else != nil || len(is.Body.List) == 0 {
+		return "", false
+	}
+	as, ok := is.Init.(*ast.AssignStmt)
+	if !ok || len(as.Rhs) != 1 {
+		return "", false
+	}
+	ta, ok := as.Rhs[0].(*ast.TypeAssertExpr)
+	if !ok || ta.Type == nil {
+		return "", false
+	}
+	base := sub.term(ta.X)
+	tname := shortTypeName(typeKey(p.TypesInfo.TypeOf(ta.Type)))
+	extra := ""
+	okName := ""
+	if len(as.Lhs) == 2 {
+		okName = exprString(as.Lhs[1])
+	}
+	if c := strings.ReplaceAll(exprString(is.Cond), " ", ""); c != okName {
+		extra = "; " + c
+	}
+	if id, ok := as.Lhs[0].(*ast.Ident); ok && id.Name != "_" {
+		sub.over[p.TypesInfo.ObjectOf(id)] = "Assert[" + tname + "](" + base + ")"
+	}
+	switch body := is.Body.List[len(is.Body.List)-1].(type) {
+	case *ast.ReturnStmt:
+		if len(is.Body.List) != 1 || len(body.Results) < 1 {
+			return "", false
+		}
+		return "IfIs(" + base + "; " + tname + extra + "){" + sub.term(body.Results[0]) + "}{" + elseT + "}", true
+	case *ast.AssignStmt:
+		// if v, ok := p.(*T); ok { p = e1 }; return f(p)
+		if len(is.Body.List) != 1 || len(body.Lhs) != 1 || len(body.Rhs) != 1 {
+			return "", false
+		}
+		lid, ok := body.Lhs[0].(*ast.Ident)
+		if !ok {
+			return "", false
+		}
+		then := sub.term(body.Rhs[0])
+		lobj := p.TypesInfo.ObjectOf(lid)
+		saved := sub.over[lobj]
+		sub.over[lobj] = "IfIs(" + base + "; " + tname + extra + "){" + then + "}{" + saved + "}"
+		// the parameter was reassigned: drop its recorded definitions so that the override is used
+		delete(sub.defs, lobj)
+		return sub.term(last.Results[0]), true
+	}
+	return "", false
+}
+
 func shortTypeName(k string) string {
 	k = strings.TrimPrefix(k, "*")
 	if i := strings.LastIndex(k, "."); i >= 0 {
@@ -198,6 +353,8 @@ func (se *symEval) term(e ast.Expr) string {
 		switch {
 		case obj == nil:
 			return "?" + e.Name
+		case se.over[obj] != "":
+			return se.over[obj]
 		case obj == se.old:
 			return "OLD"
 		case obj == se.recv:
@@ -334,7 +491,10 @@ func (se *symEval) callTerm(e *ast.CallExpr) string {
 				}
 			}
 			if callee != nil && callee.Pkg() != nil && se.c.isLLVM(callee.Pkg().Path()) && callee.Pkg().Path() != pkgTYP {
-				// method helper of the generator (gen.gepInstType): treat like a package helper
+				// method helper of the generator (gen.gepInstType): inline it when it is a small type refinement, else name it
+				if t, ok := se.inlineHelper(callee, args); ok {
+					return t
+				}
 				return "H:" + callee.Name() + "(" + strings.Join(args, ", ") + ")"
 			}
 			return x + "." + sel.Sel.Name + "(" + strings.Join(args, ", ") + ")"
@@ -347,6 +507,9 @@ func (se *symEval) callTerm(e *ast.CallExpr) string {
 		case callee.Name() == "uintSlice" && len(args) == 1 && strings.HasPrefix(args[0], "Acc("):
 			return "Syn(" + strings.TrimSuffix(strings.TrimPrefix(args[0], "Acc("), ")") + ")"
 		case se.c.isLLVM(callee.Pkg().Path()):
+			if t, ok := se.inlineHelper(callee, args); ok {
+				return t
+			}
 			return "H:" + callee.Name() + "(" + strings.Join(args, ", ") + ")"
 		}
 		return callee.Pkg().Name() + "." + callee.Name() + "(" + strings.Join(args, ", ") + ")"
@@ -412,6 +575,9 @@ func ruleTYPAGREE(c *Ctx) []Obligation {
 		ps := parser[n]
 		tkey := typeKey(n)
 		o := Obligation{Key: tkey + " result type: parser ≡ library", Pos: c.pos(ps.pos), Verdict: OK, Tags: irTags(n)}
+		if declaredMethodOf(n, "Sig") != nil {
+			o.Tags = append(o.Tags, "call")
+		}
 		tm := declaredMethodOf(n, "Type")
 		tfd := c.funcDecl(tm)
 		if tfd == nil {
@@ -435,6 +601,19 @@ func ruleTYPAGREE(c *Ctx) []Obligation {
 			return strings.ReplaceAll(s, "Acc(", "Syn(")
 		}
 		switch {
+		case declaredMethodOf(n, "Sig") != nil:
+			// call-like: the syntax states the result type, or the whole function type; LLVM's rule is
+			// result = (stated type is a function type ? its return type : the stated type), for every callee.
+			const want = "IfIs(Syn(Typ); FuncType){Assert[FuncType](Syn(Typ)).RetType}{Syn(Typ)}"
+			switch {
+			case pterm == want:
+				o.Detail = "stated type, or its return type when a function type is stated (LLVM call rule): " + pterm
+			case strings.Contains(pterm, "?"):
+				o.Verdict, o.Detail = UNDECIDED, fmt.Sprintf("call result-type term not extractable: %s = %s", ps.fn, pterm)
+			default:
+				o.Verdict = VIOL
+				o.Detail = fmt.Sprintf("the parser (%s) types the call result as %s; LLVM's rule is %s — a call whose callee type is spelled out (possible for any callee, also through a named function type) gets the wrong result type, which also shifts the numbering of later unnamed values", ps.fn, pterm, want)
+			}
 		case typAgreeExempt[tkey] != "":
 			o.Verdict, o.Detail = EXEMPT, typAgreeExempt[tkey]
 		case strings.Contains(pterm, "?") || strings.Contains(lterm, "?"):
